@@ -68,6 +68,14 @@ func runC02(c *Ctx) {
 	} else {
 		r.Fail("X15", "v1:priority.Simple", "-", "UNRESOLVED-ANCHOR: v1 Simple not found")
 	}
+	// X17 (= R2): v1 - an input handed to AddInput is registered by the clause that receives the
+	// command, whatever else is going on
+	r.Doc("X17", "(= C17 R2) v1: a received AddInput / RemoveInput command is applied inside its clause, unconditionally", 2)
+	if pr, err := resolvePrio(c.V1); err == nil {
+		checkCommandsApplied(c, pr, "X17")
+	} else {
+		r.Fail("X17", "v1:priority", "-", err.Error())
+	}
 	// X16: the simplified disciplines serve the configured inputs, all of them
 	r.Doc("X16", "simplified disciplines: the inner discipline is given the caller's Inputs as configured", 2)
 	checkInputsForwarded(c, c.V1, "X16")
